@@ -430,3 +430,11 @@ SUBS = [
     Sub("demag", check_demag, demag_case(), nontrivial=lambda c: len(set(c["cell"])) > 1, quick=60, thorough=500),
     Sub("refuse", check_refuse, enum=enum_refuse),
 ]
+
+
+# objects with a history (reads that may fill caches, in-place writes): observables equal those of a fresh object
+from pbt import aged as _aged  # noqa: E402
+
+SUBS.append(_aged.sub("C19", quick=60))
+ASSUMPTIONS = list(ASSUMPTIONS) + ["aged sub-property: library results are a function of the public primary state "
+                                   "(corners, n, names, units, bc, subregions, array, validity, labels, mapping, unit)"]
